@@ -206,6 +206,9 @@ func checkC07Model(r *evid.Run, pool *wproto.Pool, cfg string, timeout time.Dura
 				continue
 			}
 			ch, esc := keptAndConfined(o.before, o.after)
+			if o.ancBefore != o.ancAfter {
+				r.Mismatch(route+":modifies-outside-target", fmt.Sprintf("%s (target spelled %q): the directories above the target had modes %s, now %s", callString(s, c), o.req.TargetSpell, o.ancBefore, o.ancAfter), rec(s, c, o, massive, o.ancAfter))
+			}
 			if esc != "" {
 				r.Mismatch(route+":escapes-target", fmt.Sprintf("%s: created outside the target: %s", callString(s, c), esc), rec(s, c, o, massive, esc))
 			}
